@@ -14,10 +14,13 @@ import (
 	"encoding/pem"
 	"errors"
 	"fmt"
+	"io"
 	"os"
 	"os/exec"
 	"path/filepath"
 	"strings"
+	"syscall"
+	"time"
 
 	"github.com/WICG/webpackage/go/integrityblock"
 	"github.com/WICG/webpackage/go/integrityblock/webbundleid"
@@ -447,6 +450,41 @@ func run(r *mon.Run) {
 				r.Violation(key+":resign", "sign-bundle integrity-block accepted a file that already carries an integrity block: "+tailStr(string(o2), 200), nil)
 			}
 			os.Remove(outp + "2")
+		}
+		// the -o target is a FIFO (process substitution, a pipe to an uploader): not seekable, written strictly in order
+		if i%3 == 0 {
+			fifo := filepath.Join(scratch, fmt.Sprintf("fifo-%d-%d", r.Shard, i))
+			if err := syscall.Mkfifo(fifo, 0o600); err == nil {
+				got := make(chan []byte, 1)
+				go func() {
+					f, err := os.Open(fifo)
+					if err != nil {
+						got <- nil
+						return
+					}
+					b, _ := io.ReadAll(f)
+					f.Close()
+					got <- b
+				}()
+				o3, err3 := exec.Command(cli, "integrity-block", "-i", in, "-o", fifo, "-privateKey", keyPath).CombinedOutput()
+				var piped []byte
+				select {
+				case piped = <-got:
+				case <-time.After(20 * time.Second):
+					// nobody opened the FIFO for writing: unblock the reader
+					if wf, e := os.OpenFile(fifo, os.O_WRONLY|syscall.O_NONBLOCK, 0); e == nil {
+						wf.Close()
+					}
+					piped = <-got
+				}
+				os.Remove(fifo)
+				if err3 != nil {
+					outcome = "cli:FIFO-FAILED"
+					r.Violation(key+":fifo-exit", fmt.Sprintf("sign-bundle integrity-block -o <fifo> failed: %v: %s", err3, tailStr(string(o3), 200)), nil)
+				} else {
+					audit(r, key+":fifo", "cli-fifo", piped, orig, []ed25519.PublicKey{pub}, fmt.Sprintf("size=%d -o fifo", size))
+				}
+			}
 		}
 		for _, args := range [][]string{{"dump-id", "-privateKey", keyPath}, {"dump-id", "-publicKey", pubPath}} {
 			o, err := exec.Command(cli, args...).CombinedOutput()
